@@ -241,6 +241,8 @@ fn soup_condition() -> BoxedStrategy<String> {
         "not (int(n1) == 1)", "not not A", "all(A) == 1", "A == 1", "(1)", "(int(n1))", "((A))", "()",
         "of(A, 9223372036854775807)", "of(B, 1001)", "of(C, 64)", "of(C, 3)", "int(n1) == int(n2)", "flt(n1) <= flt(f1)",
         "int(f1) == 9223372036854775807",
+        // undefined identifiers that are spelled like the fields the casts name
+        "n1", "f1", "n2", "not n1", "(f2)", "all(n1)", "of(f1, 1)",
     ]);
     let operator = prop::sample::select(vec!["and", "or", "and", "or", "==", ">", "and not", "or not", "", ","]);
     let structured = (operand.clone(), prop::collection::vec((operator, operand), 0..=4)).prop_map(|(first, rest)| {
@@ -391,6 +393,21 @@ pub fn run(tier: &str, seed: u64) -> i32 {
     let adv = adversarial_docs();
     let n = if tier == "thorough" { 300_000 } else { 9_000 };
 
+    // a single regex close to the regex crate's size limit next to other members (whatever limit
+    // the loader compiles it with, the optimiser has to cope with what was loaded)
+    for body in [
+        "    f1: [svchost, '?^\\w{300}$']\n",
+        "    f1: ['?^\\w{250}$', 'i?^a\\w{80}$']\n",
+        "  - f1: '?\\pL{150}'\n  - f1: svc*\n  - f1: '*host'\n",
+        "    f1: ['i?\\w{200}x', '*a*', 'ib*']\n",
+    ] {
+        let mut c = Case::new("c03.valid");
+        c.rules = vec![format!("detection:\n  A:\n{body}  condition: A\ntrue_positives: []\ntrue_negatives: []\n")];
+        c.docs = vec![DObj(vec![("f1".to_string(), DocVal::s("svchost"))]), DObj(vec![("f1".to_string(), DocVal::Str("a".repeat(300)))])];
+        let out = judge(&c);
+        report.label("large_single_regex");
+        report.record(&c, out);
+    }
     // pattern text that loads as separate searches but is too large for the one automaton shake
     // would merge it into
     for desc in ["two_entries:8391680", "two_entries:65536"] {
